@@ -339,9 +339,9 @@ AllNoBlank(q) == \A i \in 1..Len(q) : NoBlankCont(q[i].v)
 \* how the strict argument reaches the two stages of a gpg-aware class
 \*   StrictDroppedInGpgClasses (negative control, seeded change E): strict is used by the pre-pass
 \*     but no longer forwarded to Deb822.__init__: the field parser runs with the default
-\*   PosStrictMissedByPrepass (KNOWN DEVIATION of the code, off in the property configurations):
-\*     the pre-pass looks strict up among the keyword arguments only, so a strict passed
-\*     POSITIONALLY reaches the field parser but not the pre-pass
+\*   PosStrictMissedByPrepass (negative control; the defect this check found in the code and
+\*     that was repaired in /repo commit 2236619): the pre-pass looks strict up among the keyword
+\*     arguments only, so a strict passed POSITIONALLY reaches the field parser but not the pre-pass
 WsParseG(w)    == IF StrictDroppedInGpgClasses THEN TRUE ELSE w
 WsPreG(w, pass) == IF pass = "pos" /\ PosStrictMissedByPrepass THEN TRUE ELSE w
 Passes == IF PosStrictMissedByPrepass THEN {"kw", "pos"} ELSE {"kw"}
@@ -386,8 +386,9 @@ Positions == 1..Len(P0)
 Observe(v) == IF Accept(v) \/ (ZoneWhatIf /\ Classify(v) = "zone")
               THEN [pos \in Positions |-> ObsAndCleanF(Stored(P0, pos, v), Len(v) <= GpgLen)]
               ELSE <<>>
-SoundIfStored(v, o) == \A pos \in Positions : /\ SoundObs(Stored(P0, pos, v), o[pos].obs)
-                                               /\ Len(v) <= GpgLen => WaysSound(Stored(P0, pos, v), o[pos].ways)
+SoundIfStored(v, o) == \A pos \in Positions :
+                          (SoundObs(Stored(P0, pos, v), o[pos].obs))
+                          /\ ((Len(v) <= GpgLen) => WaysSound(Stored(P0, pos, v), o[pos].ways))
 
 \* diagnostic part of a CASE line: default-setting read-backs the statement does not decide
 DiagWs(v, o) == IF Accept(v) /\ BlankCont(v)
